@@ -428,3 +428,252 @@ func checkErrorTablesAgree(c *Ctx, rule string) {
 	}
 	c.Floor(rule, "overlapping key pairs across the error tables", nPairs, 1)
 }
+
+// dominatingStoreVal: for a load of a local variable, the value of its nearest dominating store in the same
+// function (nil if none: merged / loop-carried).
+func dominatingStoreVal(ld *ssa.UnOp) ssa.Value {
+	al, ok := ld.X.(*ssa.Alloc)
+	if !ok {
+		return nil
+	}
+	b := ld.Block()
+	idx := instrIndex(ld)
+	for b != nil {
+		for i := idx - 1; i >= 0; i-- {
+			if st, ok := b.Instrs[i].(*ssa.Store); ok && st.Addr == ssa.Value(al) {
+				return st.Val
+			}
+		}
+		b = b.Idom()
+		if b != nil {
+			idx = len(b.Instrs)
+		}
+	}
+	return nil
+}
+
+// checkRangeCallbackCopies: Store.RangeTransactions re-uses the backing array of the slice it hands to its
+// callback for the next block. A callback that keeps POINTERS into that slice (e.g. summaries holding
+// &details[i].Hash / &details[i].MsgTx) must take them from its own copy; otherwise the records reported for
+// an earlier block silently turn into those of a later one (duplicates under the wrong block, others missing).
+func checkRangeCallbackCopies(c *Ctx, rule string) {
+	p := c.P
+	rt := p.Func("wtxmgr", "Store", "RangeTransactions")
+	if rt == nil {
+		c.Unresolved(rule, "wtxmgr.Store.RangeTransactions")
+		return
+	}
+	// retains(g, j): g stores or returns an address derived from its j-th (pointer) parameter
+	retains := func(g *ssa.Function, j int) bool {
+		if g == nil || j >= len(g.Params) || len(g.Blocks) == 0 {
+			return false
+		}
+		prm := g.Params[j]
+		// addresses derived from the parameter through field / element selection (embedded structs nest them)
+		derived := map[ssa.Value]bool{prm: true}
+		for changed := true; changed; {
+			changed = false
+			for _, b := range g.Blocks {
+				for _, ins := range b.Instrs {
+					switch x := ins.(type) {
+					case *ssa.FieldAddr:
+						if derived[x.X] && !derived[x] {
+							derived[x] = true
+							changed = true
+						}
+					case *ssa.IndexAddr:
+						if derived[x.X] && !derived[x] {
+							derived[x] = true
+							changed = true
+						}
+					}
+				}
+			}
+		}
+		for addr := range derived {
+			if addr == ssa.Value(prm) {
+				continue
+			}
+			for _, u := range usesOf(addr) {
+				switch y := u.(type) {
+				case *ssa.Store:
+					if y.Val == addr {
+						return true
+					}
+				case *ssa.Return:
+					return true
+				}
+			}
+		}
+		return false
+	}
+	n := 0
+	for _, cs := range p.callers(rt) {
+		if !strings.HasSuffix(fnPkgPath(cs.Parent()), "/wallet") {
+			continue
+		}
+		args := cs.Common().Args
+		var cb *ssa.Function
+		for _, o := range (&Slicer{P: p}).Origins(args[len(args)-1]) {
+			if mc, ok := o.(*ssa.MakeClosure); ok {
+				cb, _ = mc.Fn.(*ssa.Function)
+			}
+		}
+		if cb == nil || len(cb.Params) == 0 {
+			continue
+		}
+		n++
+		prm := cb.Params[0]
+		bad := ""
+		for _, b := range cb.Blocks {
+			for _, ins := range b.Instrs {
+				ia, ok := ins.(*ssa.IndexAddr)
+				if !ok {
+					continue
+				}
+				x := stripConv(ia.X)
+				direct := x == ssa.Value(prm)
+				if ld, ok := x.(*ssa.UnOp); ok && ld.Op == token.MUL {
+					if v := dominatingStoreVal(ld); v != nil && stripConv(v) == ssa.Value(prm) {
+						direct = true
+					}
+				}
+				if !direct {
+					continue
+				}
+				for _, u := range usesOf(ia) {
+					call, ok := u.(*ssa.Call)
+					if !ok {
+						continue
+					}
+					for j, a := range call.Call.Args {
+						if a == ssa.Value(ia) && retains(call.Call.StaticCallee(), j) {
+							bad = fmt.Sprintf("&%s[i] of the callback's own parameter is handed to %s, which keeps pointers into it (at %s)", prm.Name(), calleeShort(&call.Call), p.Pos(call.Pos()))
+						}
+					}
+				}
+			}
+		}
+		c.Check(rule, "range-callback-keeps-pointers-into-own-copy:"+outermost(cb).Name(), cb.Pos(), bad == "",
+			"a RangeTransactions callback keeps pointers into the slice it was handed ("+bad+"), whose backing array the store re-uses for the next block: summaries of earlier blocks end up describing later transactions")
+	}
+	c.Floor(rule, "RangeTransactions callbacks in package wallet", n, 1)
+}
+
+// checkProducersNeverDrop: every producer that hands a notification to the concurrent queue (a send on the
+// channel returned by ConcurrentQueue.ChanIn) must wait until the queue's worker takes it: a plain send, or a
+// blocking select whose other cases only receive (shutdown). A `default:` case makes the send best-effort — the
+// input channel is unbuffered, so whenever the worker is busy the notification is silently lost.
+func checkProducersNeverDrop(c *Ctx, rule string) {
+	p := c.P
+	chanIn := p.Func("chain", "ConcurrentQueue", "ChanIn")
+	if chanIn == nil {
+		c.Unresolved(rule, "chain.ConcurrentQueue.ChanIn")
+		return
+	}
+	isChanIn := func(v ssa.Value) bool {
+		for _, o := range (&Slicer{P: p}).Origins(v) {
+			if call, ok := o.(*ssa.Call); ok && call.Call.StaticCallee() == chanIn {
+				return true
+			}
+		}
+		return false
+	}
+	n := 0
+	for _, fn := range p.FuncsIn("chain") {
+		for _, b := range fn.Blocks {
+			for _, ins := range b.Instrs {
+				switch x := ins.(type) {
+				case *ssa.Send:
+					if isChanIn(x.Chan) {
+						n++ // a plain send always waits
+					}
+				case *ssa.Select:
+					sends := false
+					onlyRecvOthers := true
+					for _, st := range x.States {
+						if st.Dir == types.SendOnly && isChanIn(st.Chan) {
+							sends = true
+						} else if st.Dir != types.RecvOnly {
+							onlyRecvOthers = false
+						}
+					}
+					if !sends {
+						continue
+					}
+					n++
+					c.Check(rule, "queue-producer-waits:"+fnName(fn), x.Pos(), x.Blocking && onlyRecvOthers,
+						fnName(fn)+" offers a notification to the queue in a select that can give up (a default case, or another send): the queue's input channel is unbuffered, so the notification is dropped whenever the worker is busy — 'none lost' no longer holds under a burst or a slow consumer")
+				}
+			}
+		}
+	}
+	c.Floor(rule, "producers sending into the concurrent queue", n, 5)
+}
+
+// checkRescanEventsForwarded: the rescan goroutine — and through it resendUnminedTxs, which re-offers the
+// unconfirmed transactions after every (re)synchronisation — learns about rescan progress and completion only
+// from handleChainNotifications forwarding those events on w.rescanNotifications. In the case arm of each such
+// event every path to the next loop iteration passes that hand-off (or leaves through shutdown).
+func checkRescanEventsForwarded(c *Ctx, rule string) {
+	_ = c.P
+	fn := walletFn(c, rule, "handleChainNotifications")
+	if fn == nil {
+		return
+	}
+	n := 0
+	for _, f := range Closures(fn) {
+		loops := loopsOf(f)
+		for _, b := range f.Blocks {
+			for _, ins := range b.Instrs {
+				ta, ok := ins.(*ssa.TypeAssert)
+				if !ok || !ta.CommaOk {
+					continue
+				}
+				tname := ta.AssertedType.String()
+				if !strings.HasSuffix(tname, "chain.RescanFinished") && !strings.HasSuffix(tname, "chain.RescanProgress") {
+					continue
+				}
+				l := innermostLoopOf(loops, ta)
+				if l == nil {
+					continue
+				}
+				// the edge on which the assertion succeeded
+				for _, b2 := range f.Blocks {
+					for si := range b2.Succs {
+						ef := edgeFactOf(b2, si)
+						if ef == nil || ef.Kind != "true" {
+							continue
+						}
+						ex, ok := ef.V.(*ssa.Extract)
+						if !ok || ex.Tuple != ssa.Value(ta) {
+							continue
+						}
+						n++
+						isForward := func(i ssa.Instruction) bool {
+							sel, ok := i.(*ssa.Select)
+							if !ok {
+								return false
+							}
+							for _, st := range sel.States {
+								if st.Dir == types.SendOnly {
+									if _, fld, _, okf := fieldOf(stripConv(st.Chan)); okf && fld == "rescanNotifications" {
+										return true
+									}
+								}
+							}
+							return false
+						}
+						q := &PathQuery{Fn: f, Barrier: isForward}
+						q.LoopExit = func(from, to *ssa.BasicBlock) bool { return to == l.Header }
+						hits := exploreFromBlock(q, b2.Succs[si], b2)
+						short := tname[strings.LastIndex(tname, ".")+1:]
+						c.Check(rule, "rescan-event-forwarded:"+short, ta.Pos(), len(hits) == 0,
+							"handleChainNotifications can finish handling a "+short+" notification without forwarding it to the rescan goroutine (w.rescanNotifications): the rescan batch is never completed and resendUnminedTxs is never started, so unconfirmed transactions are not re-offered after this synchronisation")
+					}
+				}
+			}
+		}
+	}
+	c.Floor(rule, "rescan event arms in handleChainNotifications", n, 2)
+}
